@@ -70,8 +70,12 @@ class FailureDetectionMonitor(Monitor):
         kind = ev['k']
         if kind in ('rpc_fail', 'rpc_fault', 'rpc_block') and ev['id'] in self.tentative:
             # the TICK has not been delivered after all
-            prec, previous = self.tentative.pop(ev['id'])
+            prec, previous, restart_set, previous_counter = self.tentative.pop(ev['id'])
             prec['r_last'] = previous
+            prec['last_counter'] = previous_counter
+            if restart_set:
+                prec['restart_seen'] = None
+                self.count('quick_restarts_seen', -1)
             self.count('ticks_delivered', -1)
         elif kind == 'rpc_ret':
             self.tentative.pop(ev['id'], None)
@@ -98,11 +102,12 @@ class FailureDetectionMonitor(Monitor):
                 self.count('ticks_before_local_tick')
                 return
             prec = self.peer(orec, src.identifier)
-            self.tentative[ev['id']] = (prec, prec['r_last'])
+            restart_set = prec['state'] in ACTIVE and prec['inc'] is not None and prec['inc'] != src.inc and \
+                prec.get('restart_seen') is None
+            self.tentative[ev['id']] = (prec, prec['r_last'], restart_set, prec.get('last_counter'))
             prec['r_last'] = orec['counter']
             self.count('ticks_delivered')
-            if prec['state'] in ACTIVE and prec['inc'] is not None and prec['inc'] != src.inc and \
-                    prec.get('restart_seen') is None:
+            if restart_set:
                 # first TICK of a new incarnation of a peer that is still in the episode of the previous one
                 prec['restart_seen'] = (orec['counter'], prec['episode'],
                                         body['sequence_counter'], prec.get('last_counter'))
